@@ -716,6 +716,9 @@ impl Future for ServerWorker {
     }
 }
 
+#[cfg(actix_net_verif)]
+pub(crate) mod verif;
+
 fn wrap_worker_services(services: Vec<(usize, usize, BoxedServerService)>) -> Vec<WorkerService> {
     services
         .into_iter()
